@@ -238,9 +238,36 @@ def r4_float_and_list_formatting(ctx):
     ctx.ob(dc.where, "file columns of int / float / list-of-int type are written with these formatters", ok, "", key="C18-R4|writer-table")
 
 
+def r5_missing_shortcut(ctx):
+    """Optional numeric columns: the whole column is declared missing without parsing only if EVERY value is the one-character missing marker; with
+    `any`, a column of single characters holding one '.' is returned as all-missing and a junk value in it is never seen by the parser."""
+    pm = ctx.index.func(S, "parse_with_missing")
+    nt = pm.params[1]
+    n = 0
+    for t in [x for x in body_walk(pm.node) if isinstance(x, ast.If)]:
+        rets = [r for r in ast.walk(t) if isinstance(r, ast.Return)]
+        if not any(isinstance(r.value, ast.Call) and u(r.value.func) == "np.full" for r in rets):
+            continue
+        # all tests guarding the shortcut return
+        tests = [t.test] + [x.test for b in t.body for x in ast.walk(b) if isinstance(x, ast.If)]
+        for ts in tests:
+            for c in [ts] if not isinstance(ts, ast.BoolOp) else ts.values:
+                if isinstance(c, ast.Call) and u(c.func) in ("np.all", "all", "np.any", "any") and c.args:
+                    n += 1
+                    ctx.ob(pm.where, "the no-parse shortcut for an all-missing column quantifies over ALL values", u(c.func) in ("np.all", "all"), u(c), key=f"C18-R5|missing-shortcut|{sym.canon(c.args[0])[:40]}")
+                else:
+                    raise Unrecognised(f"{pm.where}: the all-missing shortcut is guarded by an unknown test: {u(c)}")
+        for r in rets:
+            if isinstance(r.value, ast.Call) and u(r.value.func) == "np.full":
+                ok = sym.same(r.value, f"np.full(len({nt}), {pm.params[0]}, dtype={pm.params[3]})")
+                ctx.ob(pm.where, "the shortcut returns one missing value per row", ok, u(r.value), key="C18-R5|missing-shortcut-value")
+    ctx.floor("quantified tests guarding the all-missing shortcut", n, 2)
+
+
 RULES = [
     ("C18-R1", r1_formatting),
     ("C18-R2", r2_parsing),
     ("C18-R3", r3_digit_matrix),
     ("C18-R4", r4_float_and_list_formatting),
+    ("C18-R5", r5_missing_shortcut),
 ]
